@@ -7,7 +7,7 @@ from concurrent.futures import ProcessPoolExecutor
 
 from vlib.loader import Repo, AnalysisError
 from vlib import indic_run as IR
-from vlib.indic_vals import NA, D, mk, hid
+from vlib.indic_vals import NA, D, mk, hid, eval_dag, Undecided
 from props.c13 import variants, EXEMPT as C13_EXEMPT
 
 EXEMPT = {"minmax": "documented: non-sequential flags are those of the entry order+1 from the end"}
@@ -104,7 +104,26 @@ def analyse_one(args):
             elif not isinstance(b, D) and not isinstance(la, D):
                 probs.append((f, "constant-mismatch", f"field '{f}': last entry {la!r} != single value {b!r}"))
             else:
-                notes.append(f"{f}: different computation for the single value (same inputs) - undecided")
+                # structurally different computations of the same inputs: look for a refuting valuation
+                wit = None
+                try:
+                    for vn, val in IR.valuations(n):
+                        x, y = eval_dag(la, val), eval_dag(b, val)
+                        if x is None or y is None:
+                            differ = (x is None) != (y is None) and not ((x is None and y != y) or (y is None and x != x))
+                        else:
+                            differ = not ((x != x and y != y) or x == y or abs(x - y) <= 1e-9 * max(1.0, abs(x), abs(y)))
+                        if differ:
+                            wit = (vn, x, y)
+                            break
+                except Undecided as e:
+                    notes.append(f"{f}: different computation for the single value - undecided ({e})")
+                    continue
+                if wit:
+                    probs.append((f, "single-differs-from-last", f"field '{f}': the single value is computed differently from the series and differs from its last "
+                                                                    f"entry on the valuation '{wit[0]}' (last entry {wit[1]!r}, single value {wit[2]!r})"))
+                else:
+                    notes.append(f"{f}: different computation for the single value; agrees on all witness valuations - undecided")
         # long input: the single value is a function of the trailing warm-up window
         rl = IR.run_indicator(repo, rel, fn, NL, False, warmup=W, overrides=over)
         if rl[0] == "ok":
